@@ -386,6 +386,13 @@ def predicate(spec: dict, suffix: str = ".p", path: str = "") -> tuple[str, str]
             k.add_ts(np.full(spec["k"], 0.25 * (1 + op[1])), 3.5 + op[2], op[1], op[2])
         elif op[0] == "rmmin" and k.n_minima > op[1] and k.n_minima >= 2:
             k.remove_minimum(op[1])
+        elif op[0] == "rmtss":
+            # pruning with a selection that may name a transition state twice or a pair that has none: whatever the
+            # call does (networkx refuses the second removal), the network is saved afterwards
+            try:
+                k.remove_tss([tuple(p) for p in op[1]])
+            except Exception:  # noqa: BLE001
+                pass
     if spec.get("edits"):
         spec = dict(spec, n=k.n_minima, hist=[tuple(int(x) for x in r) for r in np.asarray(k.pairlist).reshape(-1, 2)],
                     ts=[(int(u), int(v), None, None) for u, v in k.G.edges()])
@@ -450,6 +457,13 @@ def predicates(ctx: Ctx) -> None:
         if rng.random() < 0.3 and n >= 2:
             i = rng.randrange(n)
             spec["edits"] = [("addts", i, i), ("rmmin", i)] if rng.random() < 0.6 else [("rmmin", i)]
+        elif rng.random() < 0.3 and edges:
+            sel = [list(rng.choice(edges)) for _ in range(rng.randrange(1, 4))]
+            sel += [[p[1], p[0]] for p in sel if rng.random() < 0.5]          # the same transition state named again
+            if rng.random() < 0.4:
+                sel.append([rng.randrange(n), rng.randrange(n)])             # possibly a pair without one
+            rng.shuffle(sel)
+            spec["edits"] = [("rmtss", sel)]
         r = predicate(spec, suffix, path)
         ctx.stats.case({"stream": "predicate-random", "n": n, "m": len(edges), "k": spec["k"], "h": len(hist)}, True)
         if r:
